@@ -1187,9 +1187,9 @@ def run(ctx, only_plan=None):
     thorough = ctx.tier == "thorough"
     ctx.rule = ("cases = (a) operation histories on a real SRF/generator object (RandMeth, IncomprRandMeth, Fourier; dim 1-3; seeds small/large/"
                 "same object/distinct objects/numpy ints/None/NaN; in-place var, len_scale, nugget, anis, angles, optional-argument changes and "
-                "restorations; model replacement incl. dimension change; mode_no/period/seed setters, reset_seed, update) compared step by step "
+                "restorations; neighbouring large seeds s+1, s-1, s+7, s*(1+3e-6) and int / new object / np.int64 / np.int32 holders; model replacement incl. dimension change; mode_no/period/seed setters, reset_seed, update) compared step by step "
                 "with the extracted state machine, (b) locality probes (permutation, subset, single point, batching, store name, structured, "
-                "meshio), (c) history-vs-fresh and equal-history probes, (d) numeric ties.  Non-trivial = a history with >= 1 generator-level "
+                "meshio incl. every kind of `direction` on 2-D/3-D meshes, points and centroids, returned and stored data), (c) history-vs-fresh, seed-change-vs-fresh (SRF call / seed setter / update routes) and equal-history probes, (d) numeric ties.  Non-trivial = a history with >= 1 generator-level "
                 "operation or a probe with >= 2 points; distinct = distinct (stage, generator, dim, shape/length) keys")
     ctx.trusted = [
         "Coq 8.16.1 kernel (coqc); no native_compute",
@@ -1233,7 +1233,7 @@ def run(ctx, only_plan=None):
                 (run_plan_fo if only_plan["kind"] == "fo_history" else run_plan_rm)(ctx, gs, drv, only_plan)
             return
         corpus_isclose(ctx, gs, drv)
-        n_hist = 160 if thorough else 40
+        n_hist = 160 if thorough else 50
         n_ops = 14 if thorough else 10
         if drv is not None:
             tie_calls(ctx, gs, drv, rng, 80 if thorough else 25)
@@ -1263,8 +1263,8 @@ def run(ctx, only_plan=None):
                     ctx.dist.setdefault("op", {})
                     ctx.dist["op"]["F:" + op[0]] = ctx.dist["op"].get("F:" + op[0], 0) + 1
         probe_locality(ctx, gs, rng, 240 if thorough else 60)
-        probe_mesh(ctx, gs, rng, 600 if thorough else 150)
-        probe_seed_change(ctx, gs, rng, 480 if thorough else 120)
+        probe_mesh(ctx, gs, rng, 600 if thorough else 200)
+        probe_seed_change(ctx, gs, rng, 480 if thorough else 150)
         probe_history_vs_fresh(ctx, gs, rng, 450 if thorough else 120)
         probe_equal_histories(ctx, gs, rng, 150 if thorough else 45)
         ctx.notes.append("history correspondence: %s" % json.dumps(STATS))
